@@ -26,6 +26,8 @@ def check(ctx):
     ctx.guard("C02-B", widths.rule_sub_widths, "C02-B")
     ctx.guard("C02-C", widths.rule_width_minus_def, "C02-C")
     ctx.guard("C02-D", widths.rule_prefix_pairing, "C02-D")
+    from . import C07
+    ctx.guard("C02-D", C07.rule_c, "C02-D")
     ctx.guard("C02-E", widths.rule_line_pushes_guarded, "C02-E")
     ctx.guard("C02-F", widths.rule_stacked_cells_full_width, "C02-F")
     ctx.guard("C02-G", widths.rule_footnote_wrap, "C02-G")
